@@ -445,4 +445,5 @@ def targets():
         ("FormSum_sum_variational_components", FormSum._sum_variational_components, True),
         ("Form_init", Form.__init__, True),
         ("Form_add", Form.__add__, True),
+        ("map_integrands", importlib.import_module("ufl.algorithms.map_integrands").map_integrands, True),
     ]
